@@ -1,4 +1,5 @@
 import CM.Proofs.Account
+import CM.Proofs.AccountW
 /-!
 # C20 — one ACME account per CA and contact: registered once, persisted, always reused
 
@@ -277,6 +278,25 @@ theorem C20_one_account_for_all {s : St} (hr : Reach s) (hf : s.faults = 0) (hg 
   obtain ⟨h1, h2, _⟩ := C20_orders_use_stored hr hf hg hp
   obtain ⟨h3, h4, _⟩ := C20_orders_use_stored hr hf hg hq
   rw [h2] at h4; simp at h4; omega
+
+/-- **With faults too.** Whatever storage faults, lost answers, refused registrations and
+forgetting CAs a run contains: the account a constructed client holds (and places its orders
+with) has been written to storage successfully at some time, registration and private key —
+a client never goes on with an account that exists only in memory because its save failed. -/
+theorem C20_orders_only_with_persisted {s : St} (hr : Reach s) {p a b : Nat} (hp : s.pc p = .ready a b) :
+    s.regW a = true ∧ s.keyW b = true := by
+  have := (winv_reach hr).pcs p
+  rw [hp] at this; exact this
+
+/-- non-vacuity: the save of a fresh account fails at the key (the registration is rolled back);
+the process ends `failed`, not `ready`, and nothing counts as written for the key; a second
+process then registers, saves, and is `ready` with an account whose two files were written -/
+example : (run init [.start 0, .loadReg 0 false, .acq 0 true, .reload 0 false 0, .register 0 .ok, .savePre 0 false,
+    .saveReg 0 true, .saveKey 0 false, .rollback 0 true, .rel 0 true,
+    .start 1, .loadReg 1 false, .acq 1 true, .reload 1 false 1, .register 1 .ok, .savePre 1 false,
+    .saveReg 1 true, .saveKey 1 true, .rel 1 true]).map
+    (fun s => (s.pc 0, s.pc 1, s.regW 0, s.keyW 0, s.regW 1, s.keyW 1)) =
+    some (.failed, .ready 1 1, true, false, true, true) := by decide
 
 /-! ## mutual exclusion of everything that writes the account -/
 
